@@ -248,6 +248,10 @@ def accuracy_matrix(prop, tier, seed):
                 M.append(_c("PaVeBa", "VVD3a", order=("ice", 45, 6), eps=e, script=dict(kind="ball", G=3), max_steps=60))
                 M.append(_c("PaVeBa", "VVD3a", order=("cone3d", "obtuse"), eps=e, script=dict(kind="ball", G=3), max_steps=60))
                 M.append(_c("PaVeBaGP", "VVD3a", order=("orth", 3), eps=e, type="IH", script=dict(kind="rect", G=3), max_steps=60))
+                # twenty designs (late-run subsets whose set order is not the sorted order)
+                M.append(_c("PaVeBaPartialGP", "VVD2c", order=("Wint", WI["orth"]), eps=e, script=dict(kind="rect", G=5), max_steps=80))
+                M.append(_c("Auer", "VVD2c", eps=e, empirical=True, script=dict(kind="auer", G=5), max_steps=80))
+                M.append(_c("PaVeBa", "VVD2c", order=("Wint", WI["acute"]), eps=e, script=dict(kind="ball", G=5), max_steps=80))
             else:
                 for cn in ("orth", "acute", "obtuse", "pyobt"):
                     M.append(_c("VOGP", "VVD2a", order=("Wint", WI[cn]), eps=e, script=dict(kind="rect", G=4), max_steps=60))
@@ -259,6 +263,11 @@ def accuracy_matrix(prop, tier, seed):
                 M.append(_c("VOGP", "VVD3a", order=("ice", 45, 6), eps=e, script=dict(kind="rect", G=3), max_steps=60))
                 M.append(_c("VOGP", "VVD3a", order=("ice", 30, 4), eps=e, script=dict(kind="rect", G=3), max_steps=60))
                 M.append(_c("VOGP", "VVD3a", order=("cone3d", "acute"), eps=e, script=dict(kind="rect", G=3), max_steps=60))
+                # twenty designs (late-run subsets whose set order is not the sorted order)
+                M.append(_c("EpsilonPAL", "VVD2c", eps=e, script=dict(kind="rect", G=5), max_steps=80))
+                M.append(_c("EpsilonPAL", "VVD2c", eps=e, batch=3, script=dict(kind="rect", G=6), max_steps=80))
+                M.append(_c("VOGP", "VVD2c", order=("Wint", WI["orth"]), eps=e, script=dict(kind="rect", G=5), max_steps=80))
+                M.append(_c("VOGP", "VVD2c", order=("Wint", WI["obtuse"]), eps=e, batch=2, script=dict(kind="rect", G=6), max_steps=80))
     rnd = random.Random(seed + 99)
     out = []
     for k, c in enumerate(M):
